@@ -43,6 +43,14 @@ def main(argv):
         finally:
             sys.setprofile(None)
         out['outcome'] = 'true' if r else 'false'
+        node_check = getattr(m, 'node_check', None)
+        if node_check is not None and not r:
+            # E2 obligations: the counterexample must also show in REAL node (the lowered code only located it)
+            ok, detail = node_check(*args)
+            out['node'] = detail
+            if not ok:
+                out['outcome'] = 'harness_error'
+                out['detail'] = 'counterexample of the lowered code does not reproduce in real node: ' + str(detail)[:600]
         if pair is not None and not r:
             try:
                 g, e = pair(*args)
